@@ -368,6 +368,10 @@ where
 
                         tokio::time::sleep(delay).await;
                         attempt += 1;
+
+                        // Tower contract: drive the service to readiness again before
+                        // calling it once more (as tower::retry does between attempts).
+                        futures::future::poll_fn(|cx| service.poll_ready(cx)).await?;
                     }
                 }
             }
